@@ -440,6 +440,12 @@ LITERALS = {
 # =========================================================================================================
 # running histories
 # =========================================================================================================
+# The first violation seen in this process.  A library that really is impure can leave the process in
+# a damaged state (a module constant overwritten), after which Hypothesis' own re-execution of the
+# failing example behaves differently and is reported as "flaky" - the original violation is what counts.
+FIRST_VIOLATION = [None]
+
+
 class Runner:
     def __init__(self, W, ctx=None, fresh=False):
         self.W, self.ctx = W, ctx
@@ -463,7 +469,10 @@ class Runner:
         case = {"steps": self.steps}
         if extra:
             case.update(extra)
-        raise Violation("C20", "history", kind, case, message, {"sub": "history", "kind": kind})
+        v = Violation("C20", "history", kind, case, message, {"sub": "history", "kind": kind})
+        if FIRST_VIOLATION[0] is None:
+            FIRST_VIOLATION[0] = v
+        raise v
 
     def run_step(self, step):
         W = self.W
@@ -598,11 +607,14 @@ def check_fresh(ctx, W, R, orders):
         got = fresh_process_results(lit, order, first)
         for i in order:
             if got[str(i)] != json.loads(canon(descs[i])):
-                raise Violation("C20", "history", f"fresh_process_differs:{R.steps[i]['f']}",
-                                {"steps": R.steps, "fresh": [[order, first]]},
-                                f"{R.steps[i]['f']} (step {i}) gives {str(got[str(i)])[:200]} in a fresh interpreter "
-                                f"and {str(descs[i])[:200]} in this history",
-                                {"sub": "history", "kind": f"fresh_process_differs:{R.steps[i]['f']}"})
+                v = Violation("C20", "history", f"fresh_process_differs:{R.steps[i]['f']}",
+                              {"steps": R.steps, "fresh": [[order, first]]},
+                              f"{R.steps[i]['f']} (step {i}) gives {str(got[str(i)])[:200]} in a fresh interpreter "
+                              f"and {str(descs[i])[:200]} in this history",
+                              {"sub": "history", "kind": f"fresh_process_differs:{R.steps[i]['f']}"})
+                if FIRST_VIOLATION[0] is None:
+                    FIRST_VIOLATION[0] = v
+                raise v
         ctx.label("fresh_process_replays")
 
 
@@ -744,6 +756,8 @@ def t_machine(ctx, shard, histories, steps, budget, fresh_every):
     try:
         run_state_machine_as_test(hypothesis.seed(ctx.seed_for("machine", shard))(Machine), settings=s)
     except BaseException as e:  # noqa: a Violation raised in teardown arrives wrapped in an ExceptionGroup
+        if FIRST_VIOLATION[0] is not None:
+            raise FIRST_VIOLATION[0] from None
         v = _find_violation(e)
         if v is not None and v is not e:
             raise v from None
